@@ -722,7 +722,8 @@ func multiOnly(p *v1.Pod) bool {
 
 // tagsFor marks the steps at which a multi-fraction consumer (labels
 // runai-gpu-group/<g> only) completes or is deleted without a BindRequest
-// left: the handlers then sync nothing.
+// left: before commit 5990b65 the handlers then synced nothing (the tags keep
+// these histories recognisable as regressions of that fix).
 func (b *binderProc) tagsFor(p *v1.Pod, what string, cond bool) []string {
 	if cond && multiOnly(p) && b.srv.fl.none() {
 		return []string{"multifraction-" + what}
